@@ -233,6 +233,43 @@ def jointSep (noOrphanRemoval : Bool) (ta tb : MeshTol) (fa fb : MeshFields) : B
   ((List.range ma.dim).all fun j => sepCol A B (column (ma.points ++ mb.points) j)) &&
   ((List.range ma.dim).all fun j => sepCol A B (column cands j))
 
+/-! ### `relabel` (noise-free part): the same data set stored in another order -/
+
+/-- `relabel ρ κ f`: the points of `f` stored in the order `ρ` (new index ↦ old index; every corner
+    index renamed through `ρ⁻¹`, point-field rows moved along), then the cells of every type `ct`
+    stored in the order `κ ct` (new cell ↦ old cell; cell-field rows moved along).  For `ρ` a
+    permutation of the point range and every `κ ct` a permutation of the cell range of `ct` this is
+    what `fcv/meshgen.py: relabel` produces without noise, extra orphans and block shuffling. -/
+def relabelF (ρ : List Nat) (κ : String → List Nat) (f : MeshFields) : MeshFields :=
+  applyCellMaps (applyPointMap f ρ) κ
+
+/-- the identity cell maps of `f` -/
+def idCellMaps (f : MeshFields) (ct : String) : List Nat := List.range (f.mesh.cellsOf ct).length
+
+/-- the hypotheses on ONE data set `f` under which `sort` is canonical and relabelled copies of `f`
+    compare equal (decidable form of `BaseHyp`, FcProofs/Lemmas/LexsortNoFalseFail.lean):
+    well-formed, one block per cell type, cell fields on existing types, some point is connected,
+    `pointHyp` (Sep ∧ Distinguishable) of the stripped mesh under the tolerances of `f`, and `h`
+    separates the cells of every type of the point-sorted view -/
+def baseHyp (h : List Nat → Int) (f : MeshFields) : Bool :=
+  let t := meshTolOf f.mesh
+  let τ0 := specStripMap f.mesh
+  let g0 := applyPointMap f τ0
+  f.wf && decide f.mesh.cellTypes.Nodup && (f.cellFields.all fun cf => f.mesh.cellTypes.contains cf.ctype) &&
+  !τ0.isEmpty && pointHyp t g0.mesh &&
+  match sortPointsIdx argsortStable t g0.mesh with
+  | some I0 =>
+    (applyPointMap f (I0.map (τ0.getD · 0))).mesh.cells.all fun b =>
+      decide (b.2.map fun r => h (sortNat r)).Nodup
+  | none => false
+
+/-- no two points of the data set AS STORED (orphans included) coincide: `Sep` of all coordinate columns
+    under the tolerances of `f`, and pairwise distinct coordinate key vectors.  With `baseHyp` this is
+    the complete, decidable hypothesis of `C02_no_false_fail_continuous`. -/
+def continuousHyp (f : MeshFields) : Bool :=
+  let t := meshTolOf f.mesh
+  pointSep t f.mesh && (pointData (sepA t) f.mesh).dups.isEmpty
+
 /-! ### what the comparison of a relabelled pair must answer -/
 
 def allPassed (o : Outcome) : Bool := o.domainEq && o.statuses.all fun s => s.2.2 == .passed
